@@ -108,3 +108,45 @@ Definition hrr_to_hybrid (fl : flight) : bool :=
 
 Definition c10_cond (fixed : bool) (e : env) (v : client_view) (ks : kshape) (specmin : N) (w : wire_view) (fl : flight) : bool :=
   spec_ok fixed e v ks specmin w && negb (psk_with_hrr v fl) && negb (hrr_to_hybrid fl).
+
+(* ---- the full statement: keys as ApplyPreset leaves them ---- *)
+(* shape of the keys ApplyPreset retains for a hello whose key_share groups are [shares] (GREASE entries carry
+   their one byte of data, every other share is generated); computed on the toy instance of Model/KeyShare.v -
+   the shape does not depend on the instance (compared with the real UConn on every run, Corr/C18Corr.v CShape) *)
+Definition preset_shape (fixed : bool) (shares : list N) : option kshape :=
+  match toy_apply (fun i => (i * 7 + 3) mod 251) fixed false 2570
+                  (map (fun g => mkKS g (if is_grease g then [0] else [])) shares) 0 with
+  | Ok a => Some (shape_of (a_keys a))
+  | _ => None
+  end.
+
+(* spec_ok without the key condition *)
+Definition spec_pre (e : env) (v : client_view) (ks : kshape) (specmin : N) (w : wire_view) : bool :=
+  synced v w && versions_ok e v specmin w
+  && Bool.eqb (cv_mlkem v) (sh_mlkem ks) && negb (cv_ech v)
+  && implb (negb (is_nil (w_ccalgs w))) (cv_ccext v)
+  && (is_nil (cv_shares v) || offers13 w) && implb (offers13 w) (negb (is_nil (cv_shares v))).
+
+Fixpoint nodup_groups (l : list N) : bool :=
+  match l with [] => true | x :: tl => negb (memN x tl) && nodup_groups tl end.
+Definition wf_groups (shares : list N) : bool :=
+  nodup_groups (filter (fun g => negb (is_grease g)) shares)
+  && (length (filter hybrid shares) <=? 1)%nat
+  && forallb (fun g => is_grease g || group_impl g) shares.
+
+Definition C10_full (fixed : bool) : Prop :=
+  forall v ks m w fl,
+    spec_pre env_fixed v ks m w = true -> wf_groups (cv_shares v) = true ->
+    preset_shape fixed (cv_shares v) = Some ks ->
+    compliant env_fixed m w fl = true ->
+    exists st, client_run10 fixed env_fixed v ks fl = Complete st.
+
+(* ---- witnesses ---- *)
+Definition sid0 : bytes := repeat 7 32.
+Definition wit_view (curves shares : list N) (psk : N) (ks : kshape) : client_view :=
+  mkView [4865; 49195] curves shares [] sid0 psk [] false V12 V13 false (sh_ecdhe ks) (sh_mlkem ks) [V13; V12] 0.
+Definition wit_wire (curves shares : list N) (psk : N) : wire_view :=
+  mkWire V12 [4865; 49195] [0] curves shares [] sid0 psk [] true [V13; V12].
+Definition wit_hello (share selgroup : N) : hello_msg := mkHello V12 V13 0 sid0 4865 0 share selgroup false None [].
+Definition wit_flight (hrr : option N) (share : N) : flight :=
+  mkFlight (match hrr with Some g => Some (wit_hello 0 g) | None => None end) (wit_hello share 0) [] None None true.
